@@ -217,7 +217,7 @@ class C09(Check):
     design_ref = 'DESIGN.md section 4, C09'
 
     def strategy(self, tier):
-        return st.integers(0, 19).flatmap(lambda k, tier=tier: shared_generator_cases() if k == 0 else cases(tier))
+        return st.sampled_from(range(20)).flatmap(lambda k, tier=tier: shared_generator_cases() if k == 0 else cases(tier))
 
     def generator_case(self, case):
         """A contender asks for the lock from inside an async generator (every step is produced under the lock) that the
